@@ -34,6 +34,11 @@ def finding_key(r):
         k['k'] = ev.get('k')
     if ev.get('end') not in (None, 'ret'):
         k['end'] = ev.get('end')
+    if r.reason == 'acc':
+        m = re.findall(r'"ACCFAIL (\w+) (\w+) (-?\d+) (-?\d+) max', r.tlc_out)
+        if m:
+            k['sol'], k['fn'] = m[0][0], m[0][1]
+            k['median_bits_d'], k['median_bits_ld'] = int(m[0][2]), int(m[0][3])
     return k
 
 
@@ -182,7 +187,7 @@ def c10(tier_):
     execs = []
     grp = 0
     for sol in NONFIX:
-        for _ in range(1 if tier_ == 'quick' else 10):
+        for _ in range(2 if tier_ == 'quick' else 10):
             grp += 1
             execs += gen.gen_purity_pair(rng, sol, grp, nev=6 if tier_ == 'quick' else 20, noise=20 if tier_ == 'quick' else 60)
     return run_trace_check('C10', tier_, execs, relax=('live',), level='exploration',
@@ -284,19 +289,39 @@ def known_value_keys(pid):
     return [[k['match']['sol'], k['match']['fn']] for k in known_for(pid) if 'sol' in k.get('match', {}) and 'fn' in k.get('match', {})]
 
 
-def value_check(pid, tier_, plan, kbits=14, rule='', extra_execs=(), all_known=False):
+def value_check(pid, tier_, plan, kbits=14, rule='', extra_execs=(), all_known=False, mix=False, accstat=False):
     """plan: list of (solution, evaluators or None, nassign, npts)."""
     t0 = time.time()
     rng = random.Random(seed())
-    execs = [gen.gen_values(rng, sol, nassign=na, npts=npt, evaluators=evs) for sol, evs, na, npt in plan] + list(extra_execs)
+    execs = [gen.gen_values(rng, sol, nassign=na, npts=npt, evaluators=evs, mix=mix) for sol, evs, na, npt in plan] + list(extra_execs)
     wd = workdir(pid)
     run_executions(execs, wd)
     kn = [k for k in KNOWN if k.get('status') == 'known' and 'sol' in k.get('match', {}) and (all_known or k.get('property') == pid)]
     keys = [[k['match']['sol'], k['match']['fn']] for k in kn]
     kf = os.path.join(wd, 'known.json')
     json.dump(keys, open(kf, 'w'))
-    nlines, rej = validate_executions(execs, wd, relax=('live', 'memo'), oracle=True, batch_lines=450,
-                                      extra_env={'KNOWN': kf, 'KBITS': str(kbits)})
+    env = {'KNOWN': kf, 'KBITS': str(kbits)}
+    if accstat:
+        env['ACCSTAT'] = '1'
+    nlines, rej = validate_executions(execs, wd, relax=('live', 'memo'), oracle=True, batch_lines=450, extra_env=env)
+    # an accuracy-statistics rejection is a statistical statement: it is reported only if it repeats on a fresh
+    # sample ten times as large of the same (solution, evaluator)
+    confirmed = []
+    for x in rej:
+        if x.reason != 'acc':
+            confirmed.append(x); continue
+        k = finding_key(x)
+        evs = [c for c in map(tuple, CAT[k['sol']]['caps']) if c[0] == k['fn']] if k.get('sol') in CAT else None
+        if not evs:
+            confirmed.append(x); continue
+        big = [gen.gen_values(random.Random(seed() + 1000 + i), k['sol'], nassign=20, npts=2, evaluators=evs, mix=mix) for i in range(2)]
+        run_executions(big, wd)
+        _, rj2 = validate_executions(big, wd, relax=('live', 'memo'), oracle=True, batch_lines=2000, extra_env=env)
+        if any(y.reason == 'acc' for y in rj2):
+            confirmed.append(x)
+        else:
+            print('note: accuracy statistic of %s %s exceeded its screening threshold on %d samples but not on the confirmation sample; not reported' % (k['sol'], k['fn'], 10))
+    rej = confirmed
     nviol = report(pid, rej, crashes(execs))
     # known findings of this property: confirm each still reproduces against the property's own operator
     for k in kn:
@@ -376,10 +401,11 @@ def c08(tier_):
 
 
 def c09(tier_):
-    na, npt = reps(tier_, (2, 2), (15, 4))
+    na, npt = reps(tier_, (4, 2), (30, 4))
     plan = [(s, None, na, npt) for s in ALLVAL if s != 'sod_1d'] + [('sod_1d', [('source_rho', 'SS'), ('source_rho_u', 'SS')], na, npt)]
-    return value_check('C09', tier_, plan, kbits=5, all_known=True,
-        rule='all solutions of C01-C08, each assignment and point evaluated in both precisions with identical (exactly representable) inputs; each result must be finite and within 2^5 u_p mag of the 45-digit oracle value (u_d = 2^-53, u_ld = 2^-64), hence double and long double agree to double precision and long double is not limited to double accuracy.')
+    gen.FULL_MANTISSA[0] = True      # generic 53-bit inputs: sums and products of the inputs are inexact in double
+    return value_check('C09', tier_, plan, kbits=5, all_known=True, mix=True, accstat=True,
+        rule='all solutions of C01-C08, each assignment and point evaluated in both precisions with identical (exactly representable) inputs; transport coefficients and velocity amplitudes rescaled by random decades so that different groups of terms dominate, inputs generic 53-bit doubles; each result must be finite and within 2^5 u_p mag of the 45-digit oracle value (u_d = 2^-53, u_ld = 2^-64), hence double and long double agree to double precision; and per (solution, evaluator) the median error of the long double results, in long double roundoffs, must not exceed the median error of the double results, in double roundoffs, by more than 4 bits (history variable acc of MasaTrace): long double is not limited to double accuracy.')
 
 
 def c20(tier_):
